@@ -26,7 +26,7 @@ ASSUMPTIONS = common.BASE_ASSUMPTIONS + [
     "frame bytes with the reader's options (the property's own wording)",
 ]
 REAL_VS_STUB = common.REAL_VS_STUB
-QUICK_RUNS = 24000
+QUICK_RUNS = 56000
 EXPECTED_PROBES = {
     "quick": ["pair:rtcm_empty>ubx_ok", "pair:rtcm_rej>nmea_ok", "pair:ubx_rej>ubx_ok", "pair:noise>ubx_ok", "socket_runs"],
     "thorough": ["pair:rtcm_empty>ubx_ok", "pair:rtcm_rej>nmea_ok", "pair:ubx_rej>ubx_ok", "pair:noise>ubx_ok", "socket_runs"],
